@@ -29,26 +29,30 @@ TraceCOpen ==
    /\ rpos' = [rpos EXCEPT ![ev.h] = ev.dstart]               \* where the handle's reader really is
    /\ cache' = [cache EXCEPT ![ev.i] = ev.dstart]
    /\ Check(ev.usize = lay[ev.i].len)
-   /\ UNCHANGED <<lay, ok, half>> /\ UNCHANGED live
+   /\ UNCHANGED <<lay, ok, half, tpos>> /\ UNCHANGED live
 TraceCRead ==
    /\ IsEvent("CRead") /\ live /\ ev.r = "ok" /\ ent[ev.h] # 0
    /\ LET want == IF off[ev.h] + ev.k <= lay[ent[ev.h]].len THEN ev.k ELSE lay[ent[ev.h]].len - off[ev.h] IN
       /\ Check(ev.got = want /\ ev.plen = want /\ ev.crc = ev.pcrc)       \* the slice it would read alone
       /\ off' = [off EXCEPT ![ev.h] = off[ev.h] + ev.got]
       /\ rpos' = [rpos EXCEPT ![ev.h] = rpos[ev.h] + ev.got]
-   /\ UNCHANGED <<lay, ent, cache, ok, half, live>>
+   /\ UNCHANGED <<lay, ent, cache, ok, half, live, tpos>>
 \* an open that failed because the handle's own reader failed (injected): the handle has no entry; nothing shared may change
 TraceCOpenFault == /\ IsEvent("COpenFault") /\ live /\ ev.r # "panic" /\ ent' = [ent EXCEPT ![ev.h] = 0]
-                   /\ UNCHANGED <<lay, off, rpos, cache, ok, half, live>>
+                   /\ UNCHANGED <<lay, off, rpos, cache, ok, half, live, tpos>>
 \* what an open entry reports does not change while other handles open, fail to open, or read
 TraceCStat == /\ IsEvent("CStat") /\ live /\ ev.r = "ok" /\ ent[ev.h] # 0
               /\ Check(ev.dstart = lay[ent[ev.h]].ds /\ ev.usize = lay[ent[ev.h]].len)
-              /\ UNCHANGED <<lay, ent, off, rpos, cache, ok, half, live>>
-TraceCClose == IsEvent("CClose") /\ live /\ ent' = [ent EXCEPT ![ev.h] = 0] /\ UNCHANGED <<lay, off, rpos, cache, ok, half, live>>
+              /\ UNCHANGED <<lay, ent, off, rpos, cache, ok, half, live, tpos>>
+TraceCClose == IsEvent("CClose") /\ live /\ ent' = [ent EXCEPT ![ev.h] = 0] /\ UNCHANGED <<lay, off, rpos, cache, ok, half, live, tpos>>
+\* handle h replaced by a fresh clone of handle g's archive (Clones!CloneFrom): it starts without an entry, wherever its reader is
+TraceCClone == /\ IsEvent("CClone") /\ live /\ ev.r = "ok" /\ ent' = [ent EXCEPT ![ev.h] = 0] /\ off' = [off EXCEPT ![ev.h] = 0]
+               /\ UNCHANGED <<lay, rpos, cache, ok, half, live, tpos>>
 
 TraceInit == /\ l = 1 /\ live = FALSE /\ lay = <<>> /\ ent = [h \in Handles |-> 0] /\ off = [h \in Handles |-> 0]
              /\ rpos = [h \in Handles |-> 0] /\ cache = <<>> /\ ok = [h \in Handles |-> TRUE] /\ half = [h \in Handles |-> 0]
-TraceNext == TraceReset \/ TraceCStart \/ TraceCOpen \/ TraceCOpenFault \/ TraceCStat \/ TraceCRead \/ TraceCClose
+             /\ tpos = [h \in Handles |-> 0]
+TraceNext == TraceReset \/ TraceCStart \/ TraceCOpen \/ TraceCOpenFault \/ TraceCStat \/ TraceCRead \/ TraceCClose \/ TraceCClone
 TraceSpec == TraceInit /\ [][TraceNext]_tvars
 \* the model's invariants on the real run: the cache only ever holds the value the bytes determine
 TraceInv == live => (CacheIdempotent /\ PerHandleView)
